@@ -1,3 +1,198 @@
-import Lomond.Model.Core
+/-
+  C14 — every Ping is answered by exactly one matching Pong, in order.
+  Property theorems only (helper lemmas: Proofs/Pong.lean, Proofs/Lift.lean, Proofs/Step.lean).
+
+  What `WebSocket.feed` + `run()` do for a received Ping is `feedYield true (.ping d)`:
+  `_on_event` (which sends the automatic Pong), then the event is handed to the application
+  (`yieldEv`: the application reacts, possibly writing), then `_regular()`.  The trace (newest
+  first) records every `sendall` (`.wr`), every failed `sendall` (`.wrFail`), every event handed
+  to the application (`.ev`) and the result token of every application call (`.res`).
+-/
+import Lomond.Proofs.Pong
+
 namespace Lomond.C14
+open Lomond Lomond.Core Lomond.Core.Lift Lomond.Core.Pong
+
+/-- **One Pong, identical payload, before the event.**  Automatic pongs enabled, the socket open,
+    no Close sent (`closing`), not closed, payload ≤ 125 bytes, the write succeeding: the trace
+    after the Ping has been processed is
+    `… ++ [.ev (.ping d), .wr (Pong frame of d)] ++ (trace before)`:
+    exactly one frame is written between the old trace and the event, it is the masked Pong frame
+    `Frame.build pong d key` carrying the identical payload, and the event — hence everything the
+    application sends in reaction to it or to any later event (`l`) — comes after it. -/
+theorem pong_per_ping (s : Sys) (d : Bytes)
+    (hap : s.cfg.autoPong = true) (hso : s.sockOpen = true) (hcg : s.closing = false)
+    (hcd : s.closed = false) (hlen : d.length ≤ 125) (hw : s.cfg.writeFails s.writeCtr = false) :
+    ∃ b l, Frame.build Gen.opPong d (s.cfg.maskKey s.keyCtr) = some b ∧
+      (feedYield true (.ping d) s).state.trace = l ++ .ev (.ping d) :: .wr b :: s.trace := by
+  have h := onEvent_ping_sent d s hap hlen hso hcg hcd hw
+  obtain ⟨l, hl⟩ := feedYield_trace true (.ping d) s _ h
+  exact ⟨_, l, build_pong d _ hlen, hl⟩
+
+/-- **The Pong is on the wire before the application sees the Ping.**  Under the same hypotheses
+    the rest of the processing — handing the event to the application, its reaction, `_regular()`
+    and generator finalisation — is run from the state `pongSent s b` in which the Pong has already
+    been written (one masking key drawn, one `sendall` done, `.wr b` on the trace); and the
+    application's reaction is computed from the history with this Ping on top and executed on a
+    trace that already ends in `[.ev (.ping d), .wr b]`. -/
+theorem pong_before_app_writes (s : Sys) (d : Bytes)
+    (hap : s.cfg.autoPong = true) (hso : s.sockOpen = true) (hcg : s.closing = false)
+    (hcd : s.closed = false) (hlen : d.length ≤ 125) (hw : s.cfg.writeFails s.writeCtr = false) :
+    let b := pongBytes d (s.cfg.maskKey s.keyCtr)
+    feedYield true (.ping d) s =
+        tryC (do yieldEv (.ping d); regular)
+          (fun x => do onDisconnect; throwE (.outer x)) (pongSent s b) ∧
+    yieldEv (.ping d) (pongSent s b) =
+        doActs (s.react (.ping d :: s.hist))
+          { pongSent s b with trace := .ev (.ping d) :: .wr b :: s.trace, hist := .ping d :: s.hist } := by
+  intro b
+  have h := onEvent_ping_sent d s hap hlen hso hcg hcd hw
+  refine ⟨?_, rfl⟩
+  show tryC _ _ s = tryC _ _ (pongSent s b)
+  unfold tryC
+  rw [bind_ok h]
+  rfl
+
+/-- **No Pong when disabled.**  With `auto_pong = False`, `_on_event` for a Ping does nothing at
+    all: no write, no masking key drawn, state unchanged; the event is still handed over. -/
+theorem no_pong_when_disabled (s : Sys) (d : Bytes) (hap : s.cfg.autoPong = false) :
+    onEvent (.ping d) s = .ok () s ∧
+    ∃ l, (feedYield true (.ping d) s).state.trace = l ++ .ev (.ping d) :: s.trace := by
+  have h := onEvent_ping_disabled d s hap
+  exact ⟨h, feedYield_trace true (.ping d) s s h⟩
+
+/-- **A Pong that cannot be written is dropped silently (connection unusable).**  When the socket
+    is gone, a Close has been sent, or the websocket is closed, `send_pong`'s `WebSocketError` is
+    swallowed: `_on_event` returns normally, the trace is untouched (no `.wr`, no `.wrFail`, no
+    extra event) and the Ping event is still handed to the application. -/
+theorem pong_dropped_silently (s : Sys) (d : Bytes) (hap : s.cfg.autoPong = true)
+    (hlen : d.length ≤ 125)
+    (hun : s.sockOpen = false ∨ s.closing = true ∨ s.closed = true) :
+    onEvent (.ping d) s = .ok () (pongSkipped s) ∧ (pongSkipped s).trace = s.trace ∧
+    ∃ l, (feedYield true (.ping d) s).state.trace = l ++ .ev (.ping d) :: s.trace := by
+  have h := onEvent_ping_skipped d s hap hlen hun
+  exact ⟨h, rfl, feedYield_trace true (.ping d) s (pongSkipped s) h⟩
+
+/-- **A Pong whose `sendall` raises is dropped silently (transport failed).**  `_on_event` returns
+    normally, the only trace entry is the failed write `.wrFail` (no `.wr`), and the Ping event is
+    still handed to the application right after it. -/
+theorem pong_write_failure_silent (s : Sys) (d : Bytes) (hap : s.cfg.autoPong = true)
+    (hlen : d.length ≤ 125) (hso : s.sockOpen = true) (hcg : s.closing = false)
+    (hcd : s.closed = false) (hw : s.cfg.writeFails s.writeCtr = true) :
+    let b := pongBytes d (s.cfg.maskKey s.keyCtr)
+    onEvent (.ping d) s = .ok () (pongFailed s b) ∧
+    ∃ l, (feedYield true (.ping d) s).state.trace = l ++ .ev (.ping d) :: .wrFail b :: s.trace := by
+  intro b
+  have h := onEvent_ping_failed d s hap hlen hso hcg hcd hw
+  exact ⟨h, feedYield_trace true (.ping d) s _ h⟩
+
+/-- **Pongs go out in the order of the Pings; none is written elsewhere.**  `PongInv s`: every
+    Pong frame on the trace (`.wr b` with first byte `0x8A`) is immediately followed either by the
+    result token of the application call that wrote it, or — only when automatic pongs are
+    enabled — by the event `Ping d` it answers, `b` being the Pong frame built for that very `d`.
+    The invariant is kept by the whole receive pipeline from any state: any byte stream with any
+    number of Pings anywhere (between fragments, many per read), any application, any write
+    failures.  Since each library Pong sits directly before its Ping event, the library's Pongs
+    appear in the order of the Ping events, at most one per Ping, and no other library write
+    (automatic Ping, Close echo, protocol-error Close) is ever a Pong; with `auto_pong = False` the
+    library never writes a Pong at all. -/
+theorem pongs_in_ping_order (data : Bytes) (s : Sys) (h : PongInv s) :
+    PongInv (feedLoop data s).state :=
+  lift_feedLoop rp_leaves data s h
+
+/-- the same for a whole `WebSocket.feed(data)` call (response header phase and error handling
+    included) -/
+theorem pongs_in_ping_order_feed (data : Bytes) (s : Sys) (h : PongInv s) :
+    PongInv (wsFeed data s).state :=
+  lift_wsFeed rp_leaves data s h
+
+/-- … and for the whole session loop, for every environment script -/
+theorem pongs_in_ping_order_loop (env : List EnvStep) (s : Sys) (h : PongInv s) :
+    PongInv (loop env s).state :=
+  lift_loop rp_leaves (fun _ => True)
+    (fun dt _ s _ => rp_po.trans (rp_tick s dt) (rp_regular (tick s dt))) env (fun _ _ => trivial) s h
+
+/-- the invariant holds for a fresh trace -/
+theorem pongInv_init (s : Sys) (h : s.trace = []) : PongInv s := by
+  unfold PongInv; rw [h]; exact acc_nil _
+
+/-- **An oversize Ping never reaches `_on_event` (repaired length rule, D1).**  With the length
+    rule applied where the length is known (`ctrlLen`):
+    (1) `gotMask` rejects a control frame announcing more than 125 bytes with a `ProtocolError`
+        before a single payload byte is read;
+    (2) every bite of `Parser.feed` keeps "a control payload being read is ≤ 125 bytes in total"
+        and every control frame the parser outputs carries ≤ 125 bytes;
+    (3) for such a payload `_on_event`'s `ValueError` branch (`'error'` Disconnected) is dead:
+        it never raises. -/
+theorem oversize_ping_unreachable (v : Variant) (hv : v.ctrlLen = true) :
+    (∀ (p : PState) (b0 len : Nat) (key : Option Bytes), b0 % 16 ≥ 8 → len > 125 →
+        ∃ msg, gotMask v p b0 len key = .error (.protocol msg)) ∧
+    (∀ (p : PState) (chunk : Bytes) (r : PState × Option Out),
+        biteBytes v p chunk = .ok r → CtrlBound p → chunk.length ≤ p.remPred + 1 →
+        CtrlBound r.1 ∧ OutBound r.2) ∧
+    (∀ (s : Sys) (d : Bytes), d.length ≤ 125 → ∃ s', onEvent (.ping d) s = .ok () s') := by
+  refine ⟨fun p b0 len key => gotMask_rejects_oversize_control v hv p b0 len key,
+          fun p chunk r h hp hc => biteBytes_ctrl v hv p chunk r h hp hc, ?_⟩
+  intro s d hlen
+  cases hE : onEvent (.ping d) s with
+  | ok u s' => exact ⟨s', rfl⟩
+  | err x s' =>
+    exfalso
+    simp only [onEvent] at hE
+    split at hE
+    · split at hE
+      · omega
+      · split at hE
+        · cases hE
+        · rename_i heq; exact sendFrame_no_err heq
+    · cases hE
+
+/-- The pinned commit (`ctrlLen = false`, finding D1) did accept a 126-byte Ping header, and the
+    automatic Pong then fails with `ValueError`, which ends the loop with an `'error'`
+    Disconnected instead of a protocol error. -/
+theorem oversize_ping_present_variant :
+    (∃ r, gotMask { ctrlLen := false } {} 0x89 126 none = .ok r) ∧
+    ∀ (s : Sys) (d : Bytes), s.cfg.autoPong = true → d.length > 125 →
+      onEvent (.ping d) s = .err (.other "error") s :=
+  ⟨⟨_, rfl⟩, fun s d hap hlen => onEvent_ping_oversize d s hap hlen⟩
+
+/-! ### non-vacuity: concrete states on which the hypotheses hold -/
+
+/-- an open connection, the application answers every Ping event with a binary message -/
+def exSys : Sys :=
+  { cfg := {}, env := [], sockOpen := true, ready := false,
+    react := fun h => match h with | .ping _ :: _ => [.sendBinary (.bytes [7]) false] | _ => [] }
+
+-- one Pong with the same payload, then the event, then the application's write and its token
+example : (feedYield true (.ping [1, 2, 3]) exSys).state.trace =
+    [.res .ok, .wr [130, 129, 0, 0, 0, 0, 7],
+     .ev (.ping [1, 2, 3]), .wr [138, 131, 0, 0, 0, 0, 1, 2, 3]] := by decide +kernel
+
+example : Frame.build Gen.opPong [1, 2, 3] [0, 0, 0, 0] = some [138, 131, 0, 0, 0, 0, 1, 2, 3] := by decide +kernel
+
+-- disabled: no Pong
+example : (feedYield true (.ping [1]) { exSys with cfg := { autoPong := false } }).state.trace =
+    [.res .ok, .wr [130, 129, 0, 0, 0, 0, 7], .ev (.ping [1])] := by decide +kernel
+
+-- closing: Pong dropped, no exception, event still delivered (and the application's write refused)
+example : (feedYield true (.ping [1]) { exSys with closing := true }).state.trace =
+    [.res .wsClosing, .ev (.ping [1])] := by decide +kernel
+
+-- failing transport: `.wrFail`, event still delivered
+example : (feedYield true (.ping [1]) { exSys with cfg := { writeFails := fun k => k == 0 } }).state.trace =
+    [.res .ok, .wr [130, 129, 0, 0, 0, 0, 7], .ev (.ping [1]), .wrFail [138, 129, 0, 0, 0, 0, 1]] := by decide +kernel
+
+-- two Pings in one read (frames phase): Pongs in the order of the Pings
+example : ((do let _ ← onOut (.frame { opcode := 9, payload := [65] })
+               onOut (.frame { opcode := 9, payload := [66] }) : M Bool)
+            { exSys with react := fun _ => [] }).state.trace =
+    [.ev (.ping [66]), .wr [138, 129, 0, 0, 0, 0, 66], .ev (.ping [65]), .wr [138, 129, 0, 0, 0, 0, 65]] := by
+  decide +kernel
+
+example : PongInv exSys := pongInv_init exSys rfl
+
+-- the parser rejects a Ping announcing 126 bytes as soon as the length is known
+example : gotMask {} {} 0x89 126 none =
+    .error (.protocol "control frames must be <= 125 bytes in length") := rfl
+
 end Lomond.C14
